@@ -378,6 +378,10 @@ theorem evalSqlT_opTable (db : DB) (env : List Nat) : ∀ c, ScalarCond db env c
   | instr tab a b => intro _; simp only [evalSqlT]; exact subT_opTable db env tab a b
   | truthy c => intro _; rfl
   | like tab c k => intro _; rfl
+  | truthyStr tab c => intro _; rfl
+  | pyConst b v i n => intro _; rfl
+  | strNonEmpty tab c => intro _; rfl
+  | rowIs v i n => intro _; rfl
 
 /-! ## Tables that do NOT pass (tests by `decide`: a seeded change and the code before two fixes) -/
 
@@ -421,6 +425,8 @@ def operandKind : Operand → NodeKind
   | .other .nested => .nestedQuery
   | .other .selfVar => .variable
   | .other .objLit => .literal
+  | .var _ _ => .variable
+  | .obj _ => .literal
 
 /-- **C07_dispatch_rejects.**  The node kinds `dispatch` has no case for are exactly the constructors outside the
 dispatch of the hand-written translator, and each of them is refused with the error class `rejects` names. -/
@@ -444,6 +450,8 @@ theorem C07_operand_rejects (S : Schema) (vars : List Cls) (o : Operand) (st : S
   cases o with
   | chain c => exfalso; revert h; simp only [operandKind]; decide
   | lit v => exfalso; revert h; simp only [operandKind]; decide
+  | var v s => exfalso; revert h; simp only [operandKind]; decide
+  | obj i => exfalso; revert h; simp only [operandKind]; decide
   | other k => cases k <;> first | (exfalso; revert h; simp only [operandKind]; decide) | rfl
 
 /-- `set_of` and a missing DAO are refused with the classes `rejects` names -/
